@@ -555,11 +555,26 @@ func runLightFillFailure(sec *vh.Section, n int) {
 		})
 	}
 	cmpHull("after a SyncChunks that could not read the records")
+	r.ask("rw.sync", func(string) {}) // every new cursor runs SyncChunks
 	// count > Recs = 0: the window is open, nothing is hidden
 	r.doQuery(op{Kind: "query", Lo: i64p(150), Hi: i64p(160)}, false)
 	r.doQuery(op{Kind: "query", Lo: i64p(1000), Hi: i64p(1000)}, false)
 	r.doQuery(op{Kind: "query", Hi: i64p(1005)}, false)
 	cmpHull("after a failed lightFill and the next queries (each of them runs SyncChunks)")
+	if r.implHull() != failed {
+		// a tree where the entry is filled again (proposed repair): the look-ups of the queries have asked for rebuilds; bring
+		// both sides to the state that does not depend on when those ran
+		if !r.waitIdle() {
+			return
+		}
+		for _, c := range r.chunks() {
+			r.srv.TsIdx.RebuildIndex(r.ctx, r.src, c, false)
+		}
+		if !r.waitIdle() {
+			return
+		}
+		r.ask("rw.heal", func(string) {})
+	}
 	if !r.doWrite(op{Kind: "write", Segs: []seg{{T: 2000, N: n, D: 1}}}, rng) {
 		return
 	}
